@@ -20,6 +20,7 @@ func main() {
 	tier := flag.String("tier", "quick", "tier")
 	backend := flag.String("backend", "tarfs", "tarfs|memfs|dirfs")
 	probe := flag.Bool("probe", false, "print observations of the corpus as JSON and exit")
+	probeSet := flag.String("probeset", "old", "old|hard|dup: which hand-picked cases -probe runs")
 	_ = flag.String("replay", "", "unused: cases are regenerated from the seed")
 	flag.Parse()
 	slog.SetDefault(slog.New(slog.NewTextHandler(io.Discard, nil)))
@@ -31,7 +32,14 @@ func main() {
 	}
 	b := map[string]int{"tarfs": bTarfs, "memfs": bMemfs, "dirfs": bDirfs}[*backend]
 	if *probe {
-		for _, c := range append(append(corpus(b), kindCorpus(b)...), linkCorpus(b)...) {
+		set := append(append(corpus(b), kindCorpus(b)...), linkCorpus(b)...)
+		switch *probeSet {
+		case "hard":
+			set = hardCorpus(b)
+		case "dup":
+			set = dupCorpus(b)
+		}
+		for _, c := range set {
 			t := newIDs()
 			o, err := run(c, t)
 			j, _ := json.Marshal(struct {
